@@ -3753,6 +3753,11 @@ impl CanonicalizeContext {
 					// the mrow started with some open fence (which caused a push) -- add the close, pop, and push on the "operand"
 					new_current_child = self.potentially_lift_script(mrow)
 				}
+				if parse_stack.is_empty() {
+					// there was no open fence after all: white space that is kept out of the parse can leave more than
+					// one child in the bottom row ("k <msup><mi/>..</msup> B )") -- keep the stack state right rather than crash
+					parse_stack.push( StackInfo::new(mrow.document()) );
+				}
 			} else if current_op.op.is_postfix() {
 				// grab the left operand and start a new mrow with it and the operator -- put those back on the stack
 				// note:  the code does these operations on the stack for consistency, but it could be optimized without push/popping the stack
